@@ -306,7 +306,7 @@ func (c *Ctx) genMulti(kind string) outWriter {
 	k := 2 + c.Rng.Intn(3)
 	// one case in five is HEAVY: hundreds of chunks per producer, written without yielding — what a pipeline whose
 	// stages print in loops does to the one buffer
-	heavy := c.Rng.Intn(5) == 0
+	heavy := c.Rng.Intn(5) == 0 || (kind == "g" && c.Rng.Intn(3) == 0)
 	if heavy {
 		c.Hit("multi-producer:heavy")
 	}
